@@ -27,17 +27,22 @@ def main():
     src, first = inspect.getsourcelines(util._constrain_ages)
     heads = [first + i for i, l in enumerate(src) if l.strip() == HEAD_TEXT]
     if len(heads) != 2:
-        print("loop heads not found", file=sys.stderr)
+        print("DRIFT: the two loop heads of _constrain_ages were not found in the source", file=sys.stderr)
         sys.exit(3)
     which = {heads[0]: "lsq", heads[1]: "force"}
     code = util._constrain_ages.__code__
     events = []
+    lost = []
 
     def local_tracer(frame, event, arg):
         if event == "line" and frame.f_lineno in which:
             L = frame.f_locals
-            events.append({"loop": which[frame.f_lineno], "time": [float(x) for x in L["nodes_time"]],
-                           "cav": [[float(a), float(b)] for a, b in L["edges_cavity"]]})
+            try:
+                events.append({"loop": which[frame.f_lineno], "time": [float(x) for x in L["nodes_time"]],
+                               "cav": [[float(a), float(b)] for a, b in L["edges_cavity"]]})
+            except (KeyError, TypeError, ValueError, IndexError) as ex:   # the kernel's locals were renamed / retyped
+                lost.append(repr(ex))
+                return None
         return local_tracer
 
     def tracer(frame, event, arg):
@@ -56,11 +61,17 @@ def main():
                 res = util._constrain_ages(t, fixed, ep, ec, eps, iters)
             finally:
                 sys.settrace(None)
+            if lost:
+                print("DRIFT: the locals of _constrain_ages could not be read at a loop head: " + lost[0], file=sys.stderr)
+                sys.exit(3)
 
             def ints(xs):
                 r = [int(round(x)) for x in xs]
                 if any(abs(a - b) > 0 for a, b in zip(r, xs)):
-                    raise SystemExit(f"non-integer value in unit realisation: {xs}")
+                    # the unit realisation keeps Constrain's machine on integers; other values mean the kernel's
+                    # arithmetic differs from the machine's -- conformance drift, judged elsewhere on what it returns
+                    print(f"DRIFT: non-integer value in the unit realisation: {xs}", file=sys.stderr)
+                    sys.exit(3)
                 return r
             out.write(json.dumps({"tid": tid, "kind": "begin", "edges": [[int(p) + 1, int(c) + 1] for p, c in zip(ep, ec)],
                                   "mean": [int(m) for m in inst["mean"]], "fixed": sorted(int(f) + 1 for f in inst["fixed"]),
